@@ -73,6 +73,7 @@ a regular expression, so the synchronization above could also be achieved with:
 
     dst_job.sync(src_job, doc_sync=sync.DocSync.ByKey('foo'))
 """
+import errno
 import logging
 import os
 import re
@@ -322,6 +323,19 @@ class _FileModifyProxy:
     def copytree(self, src, dst, **kwargs):
         """Copy tree src to dst."""
         logger.more(f"Copy tree '{_safe_relpath(src)}' -> '{_safe_relpath(dst)}'.")
+        if self.dry_run:
+            # Do not create any directories, only report what would be copied.
+            if os.path.exists(dst):
+                raise FileExistsError(errno.EEXIST, os.strerror(errno.EEXIST), dst)
+            for root, _, filenames in os.walk(src):
+                for fn in filenames:
+                    self.copy(
+                        os.path.join(root, fn),
+                        os.path.normpath(
+                            os.path.join(dst, os.path.relpath(root, src), fn)
+                        ),
+                    )
+            return
         shutil.copytree(src, dst, copy_function=self.copy, **kwargs)
 
     @contextmanager
